@@ -511,6 +511,9 @@ hwloc__imattr_refresh(struct hwloc_topology *topology,
                       struct hwloc_internal_memattr_s *imattr)
 {
   unsigned j, k;
+#ifdef HWLOC_VERIF
+  if (hwloc_verif_event) hwloc_verif_event("memattr_refresh_write", (unsigned long) (imattr - topology->memattrs), 0); /* the cached targets are about to be rewritten */
+#endif
   for(j=0, k=0; j<imattr->nr_targets; j++) {
     int ret = hwloc__imtg_refresh(topology, imattr, &imattr->targets[j]);
     if (!ret) {
